@@ -409,7 +409,7 @@ impl Heap {
         match name {
             "directed" => (name, directed()[i as usize].1.to_string()),
             "one-machine-many-compilers" => (name, machine_programs(&mut r).join("\n//---- next program, fresh compiler\n")),
-            "long-runs" => (name, long_run((i as usize) % LONG_RUNS, [400_000, 2_000_000, 8_000_000][(i as usize) / LONG_RUNS]).0),
+            "long-runs" => (name, long_run((i as usize) % LONG_RUNS, [400_000, 1_200_000, 3_000_000][(i as usize) / LONG_RUNS]).0),
             "scale" => (name, crate::scale::heap_programs(ctx.flavour == Flavour::Rel && ctx.tier == Tier::Thorough)[i as usize].1.clone()),
             "valgrind" => {
                 let d = directed();
@@ -791,7 +791,7 @@ impl Check for Heap {
             }
             "long-runs" => {
                 heapmon::install();
-                let iterations = [400_000usize, 2_000_000, 8_000_000][(i as usize) / LONG_RUNS];
+                let iterations = [400_000usize, 1_200_000, 3_000_000][(i as usize) / LONG_RUNS];
                 let (text, want) = long_run((i as usize) % LONG_RUNS, iterations);
                 let mut cfg = Self::cfg(ctx);
                 cfg.budget = Some(iterations as u64 * 80);
